@@ -10,6 +10,8 @@ CONSTANTS
  Foreign = FALSE
  KindOf <- K_aaa
  LoadOf <- L_222
+ Shutdowns = FALSE
+ CancelAware = TRUE
  ClearInputs = TRUE
 INVARIANT Inv_C03
 INVARIANT Inv_C07
